@@ -180,6 +180,50 @@ func (m *RWMutexState) RUnlock() {
 	x.tracef("RUnlock rw#%d", m.id)
 }
 
+// TryLock / TryRLock never wait: they fail when the lock is held incompatibly (or, for TryRLock, when a writer is pending).
+func (m *RWMutexState) TryLock() bool {
+	x := active()
+	if x == nil {
+		if m.writer || m.readers > 0 {
+			return false
+		}
+		m.writer = true
+		return true
+	}
+	m.init(x)
+	x.point(&pend{desc: fmt.Sprintf("TryLock rw#%d", m.id)})
+	if m.writer || m.readers > 0 {
+		x.hbEvent(&m.hb, kTryLock, 0)
+		return false
+	}
+	m.writer = true
+	x.acquire(m.vc)
+	x.acquire(m.rvc)
+	x.hbEvent(&m.hb, kTryLock, 1)
+	return true
+}
+
+func (m *RWMutexState) TryRLock() bool {
+	x := active()
+	if x == nil {
+		if m.writer {
+			return false
+		}
+		m.readers++
+		return true
+	}
+	m.init(x)
+	x.point(&pend{desc: fmt.Sprintf("TryRLock rw#%d", m.id)})
+	if m.writer || m.pendingW > 0 {
+		x.hbEvent(&m.hb, kTryLock, 2)
+		return false
+	}
+	m.readers++
+	x.acquire(m.vc)
+	x.hbEvent(&m.hb, kTryLock, 3)
+	return true
+}
+
 // Free reports that nobody holds the lock (invariants are evaluated only then).
 func (m *RWMutexState) Free() bool { return !m.writer && m.readers == 0 }
 
